@@ -963,6 +963,16 @@ func (ctx *RenderContext) EvaluateExpression(node Node) (interface{}, error) {
 			if IsDebugEnabled() && debugger.level >= DebugVerbose {
 				LogVerbose("Fallback - calling '%s' as a regular function", n.name)
 			}
+			// A call through a module (_self or an import alias) names a macro: a
+			// registered or built-in function of the same name must not take its place
+			if macro, ok := ctx.GetMacro(n.name); ok {
+				if macroNode, ok := macro.(*MacroNode); ok {
+					return func(w io.Writer) error {
+						return macroNode.CallMacro(w, ctx, args...)
+					}, nil
+				}
+			}
+
 			result, err := ctx.CallFunction(n.name, args)
 			if err != nil {
 				return nil, err
